@@ -40,12 +40,36 @@ impl Creds {
 const ALPHABET: &[char] = &['a', 'b', 'Z', '0', ':', ' ', 'é', 'ß', '中', '😀', '\u{0}', '/', 'p', '"', 'z', '\t'];
 
 pub fn gen_string(ch: &mut Choices, max_chars: u64) -> String {
-    let n = ch.range(0, max_chars);
+    // one string in twelve is long: sized around the boundaries text handling tends to have (HMAC
+    // block 64, the 128-character / 513- and 763-byte limits of the text attributes, 255/256); the
+    // alphabet mixes 1-, 2-, 3- and 4-byte characters, so byte offsets 64, 128, 256, 512 fall inside
+    // a character in many of them
+    let n = if ch.rare(1, 12) { *ch.pick(&[62u64, 64, 66, 90, 126, 128, 129, 200, 256, 509]) + ch.below(4) } else { ch.range(0, max_chars) };
     let mut s = String::new();
     for _ in 0..n {
         s.push(*ch.pick(ALPHABET));
     }
     s
+}
+
+/// Exactly `len` bytes of valid UTF-8 mixing character widths (for the text-carrying attributes).
+pub fn utf8_fill(ch: &mut Choices, len: usize) -> Vec<u8> {
+    let mut s = String::with_capacity(len);
+    // a run of 1-byte characters of drawn length first, so that multi-byte characters straddle
+    // every residue of the round offsets
+    let lead = (ch.below(5) as usize).min(len);
+    for _ in 0..lead {
+        s.push('a');
+    }
+    while s.len() < len {
+        let c = *ch.pick(ALPHABET);
+        if s.len() + c.len_utf8() <= len {
+            s.push(c);
+        } else {
+            s.push('x');
+        }
+    }
+    s.into_bytes()
 }
 
 pub fn gen_creds(ch: &mut Choices) -> Creds {
@@ -450,12 +474,12 @@ pub fn seals_of(variant: u64, c: &Creds) -> Vec<Seal> {
 /// generation of raw values by the foreign peer and the splicer).
 pub const KNOWN_TYPES: &[(u16, &[usize])] = &[
     (0x0001, &[8, 20]),
-    (0x0006, &[0, 5, 513]),
+    (0x0006, &[0, 5, 64, 128, 256, 513]),
     (0x0008, &[20]),
-    (0x0009, &[4, 10, 767]),
+    (0x0009, &[4, 10, 68, 132, 260, 767]),
     (0x000A, &[0, 2, 4]),
-    (0x0014, &[0, 5, 763]),
-    (0x0015, &[0, 5, 763]),
+    (0x0014, &[0, 5, 64, 128, 256, 763]),
+    (0x0015, &[0, 5, 64, 128, 256, 763]),
     (0x001C, &[16, 20, 32]),
     (0x001D, &[4]),
     (0x001E, &[32]),
@@ -464,7 +488,7 @@ pub const KNOWN_TYPES: &[(u16, &[usize])] = &[
     (0x0025, &[0]),
     (0x8002, &[4, 8]),
     (0x8003, &[0, 5]),
-    (0x8022, &[0, 5, 763]),
+    (0x8022, &[0, 5, 64, 128, 256, 763]),
     (0x8023, &[8, 20]),
     (0x8028, &[4]),
     (0x8029, &[8]),
@@ -487,8 +511,13 @@ pub fn gen_raw_value(ch: &mut Choices, ty: u16) -> Vec<u8> {
         v[1] = 0;
         v[2] = ch.range(3, 6) as u8;
         v[3] = ch.below(100) as u8;
-        for b in v[4..].iter_mut() {
-            *b = b'a' + (*b % 26);
+        if ch.coin() {
+            let t = utf8_fill(ch, len - 4);
+            v[4..].copy_from_slice(&t);
+        } else {
+            for b in v[4..].iter_mut() {
+                *b = b'a' + (*b % 26);
+            }
         }
     }
     if (ty == 0x001D || ty == 0x8002) && len >= 4 && ch.coin() {
@@ -508,8 +537,12 @@ pub fn gen_raw_value(ch: &mut Choices, ty: u16) -> Vec<u8> {
         v[at..at + 4].copy_from_slice(&pat);
     }
     if matches!(ty, 0x0006 | 0x0014 | 0x0015 | 0x8022 | 0x8003) && ch.coin() {
-        for b in v.iter_mut() {
-            *b = b'a' + (*b % 26);
+        if ch.coin() {
+            v = utf8_fill(ch, len);
+        } else {
+            for b in v.iter_mut() {
+                *b = b'a' + (*b % 26);
+            }
         }
     }
     v
